@@ -1169,7 +1169,8 @@ PROP_THEOREMS = {
     "C06": ["C06_undo_leaves_less_than_a_byte", "C06_stored_streams_consumed_exactly_partial"],
     "C07": ["C07_read_bits_resume_partial", "C07_stored_streams_any_input_split_partial",
             "C07_stored_streams_any_schedule_partial"],
-    "C08": ["C08_window_and_truthful_status", "C08_bad_geometry_untouched", "C08_driver_loop_progress"],
+    "C08": ["C08_window_and_truthful_status", "C08_bad_geometry_untouched", "C08_driver_loop_progress",
+            "C08_vector_limit_on_stored_streams_partial"],
     "C13": ["C13_full_flush_is_stream_error", "C13_errors_are_sticky", "C13_nonfinish_after_finish",
             "C13_counts_within_offered_buffers", "C13_wf_of_constructors", "C13_inflate_on_stored_streams_partial",
             "C13_inflate_finish_on_fresh_object_partial",
